@@ -178,6 +178,7 @@ fn expected(t: &Tbl) -> serde_json::Value {
 }
 
 pub fn run(ctx: &mut Ctx) {
+    crate::api::run_schema(ctx);
     ctx.rule = "scenarios over every SQLite-supported ColumnType (with lengths / precisions) x random orders of the column specifications (NOT NULL, DEFAULT, UNIQUE, PRIMARY KEY, AUTOINCREMENT, CHECK) x table-level primary / unique keys with per-column direction, foreign keys with actions, checks, followed by CREATE [UNIQUE] INDEX (partial, IF NOT EXISTS), ALTER TABLE ADD / RENAME / DROP COLUMN, RENAME TABLE, DROP INDEX / TABLE; each step is rendered by the crate and executed on SQLite; the catalogue the engine reports is compared with the catalogue expected from the scenario description".into();
     let n = if ctx.tier_thorough { 6000 } else { 700 };
     let dir = std::env::var("VERIF_WORK").unwrap_or_else(|_| "/verif/work".into());
